@@ -62,6 +62,31 @@ Theorem C03_ack_durable :
               (any_known crc pol init ops orc = false -> es' = acked_payloads ops rs).
 Proof. exact ack_durable. Qed.
 
+(* The invariant is not an assumption about the outside world: every state reached from the freshly
+   created writer by any history under any oracle satisfies it. *)
+Theorem C03_reachable_inv :
+  forall (crc : bytes -> N) (pol : policy) (deser_ok : bytes -> bool), (forall p, crc p < 4294967296) ->
+  forall (ops : list wop) (orc : oracle) st' rs orc',
+  Forall (fun op => Forall (wfp deser_ok) (wpayloads op)) ops ->
+  wrun crc pol init ops orc = (st', rs, orc') -> exists es', Inv crc deser_ok st' es'.
+Proof.
+  intros crc pol deser_ok Hc ops orc st' rs orc' Hw H.
+  destruct (wrun_spec crc pol deser_ok ops init [] orc st' rs orc' (Inv_init crc deser_ok) Hw H) as (es' & HI & _).
+  exists es'. exact HI.
+Qed.
+
+(* The reader lemma behind the rollback-failure case: complete frames followed by a proper prefix of
+   one more frame (a torn tail) read, strictly and without error, as exactly the complete frames. *)
+Theorem C03_torn_tail_reads_as_complete_frames :
+  forall (crc : bytes -> N) (deser_ok : bytes -> bool), (forall p, crc p < 4294967296) ->
+  forall (es : list bytes) (q : bytes) (k : nat),
+  Forall (wfp deser_ok) es -> valid_payload q -> (k < length (frame crc q))%nat ->
+  read_all_strict crc deser_ok (segment crc es ++ firstn k (frame crc q)) = RdOk es.
+Proof.
+  intros crc deser_ok Hc es q k Hw Hq Hk. apply read_segment_torn; [exact Hc|exact Hw|].
+  right. exists q, k. auto.
+Qed.
+
 (* After a failed rollback nothing is acknowledged and the file is never touched again. *)
 Theorem C03_no_ack_after_poison :
   forall (crc : bytes -> N) (pol : policy) (ops : list wop) (st : wstate) (orc : oracle) st' rs orc',
@@ -200,6 +225,8 @@ Qed.
 Print Assumptions C03_wal_failure_atomic.
 Print Assumptions C03_wal_failure_prefix.
 Print Assumptions C03_ack_durable.
+Print Assumptions C03_reachable_inv.
+Print Assumptions C03_torn_tail_reads_as_complete_frames.
 Print Assumptions C03_no_ack_after_poison.
 Print Assumptions C03_invalid_input_no_effect.
 Print Assumptions C03_engine_failure_atomic.
